@@ -359,7 +359,6 @@ static void runCase(Sink &sink, const Args &a, long cs)
     auto man = makeManifold(rng, manKind);
     const int n = (int)man->getAmbientDimension();
     const double delta = rng.logUni(0.01, 0.5), lambda = rng.uni(1.5, 5), tol = rng.logUni(1e-6, 1e-3);
-    const bool thorough = a.thorough();
 
     uint64_t hsh = hmix(hmix(hashStr(man->name), spaceKind), plannerKind);
     hsh = hmixd(hmixd(hmixd(hsh, std::floor(std::log10(delta) * 8)), std::floor(lambda * 2)), std::floor(std::log10(tol) * 4));
@@ -459,7 +458,7 @@ static void runCase(Sink &sink, const Args &a, long cs)
         ob::ScopedState<> p(css), q(css), o(css);
 
         // ---------------- sampling block
-        const int nSamp = thorough ? 150 : 60;
+        const int nSamp = 60;
         for (int i = 0; i < nSamp; ++i)
         {
             smp->sampleUniform(p.get());
@@ -522,7 +521,7 @@ static void runCase(Sink &sink, const Args &a, long cs)
             }
         }
         // near and far pairs
-        const int nNear = thorough ? 24 : 10, nFar = thorough ? 8 : 4;
+        const int nNear = 10, nFar = 4;
         for (int k = 0; k < nNear + nFar; ++k)
         {
             smp->sampleUniform(p.get());
@@ -610,7 +609,7 @@ static void runCase(Sink &sink, const Args &a, long cs)
             int rsel = (int)rng.ui(3);
             if (rsel == 1) range = spaceKind > 0 ? css->as<ob::AtlasStateSpace>()->getRho_s() : rng.uni(0.2, 1.0);
             else if (rsel == 2) range = rng.uni(0.2, 1.0);
-            long budget = thorough ? 4000 : 1500;
+            long budget = 1500;
             switch (plannerKind)
             {
                 case 0:
@@ -635,7 +634,7 @@ static void runCase(Sink &sink, const Args &a, long cs)
                 }
                 case 2:
                     pl = std::make_shared<og::PRM>(csi);
-                    budget = thorough ? 1200 : 500;
+                    budget = 500;
                     break;
                 case 3:
                 {
@@ -650,7 +649,7 @@ static void runCase(Sink &sink, const Args &a, long cs)
                     auto r = std::make_shared<og::BITstar>(csi);
                     r->setSamplesPerBatch(rng.range(20, 100));
                     pl = r;
-                    budget = thorough ? 3000 : 1000;
+                    budget = 1000;
                     break;
                 }
             }
@@ -659,7 +658,7 @@ static void runCase(Sink &sink, const Args &a, long cs)
             // cost control (counts only): RRTConnect's connect step runs many geodesics per evaluation on the atlas spaces, and
             // one-dimensional manifolds (circle = sphere-cap-plane in R^3) are usually cut by the ball obstacles, so that the
             // planner spends its whole budget while the atlas degenerates
-            if (spaceKind > 0 && plannerKind == 1) budget = std::min<long>(budget, thorough ? 1500 : 600);
+            if (spaceKind > 0 && plannerKind == 1) budget = std::min<long>(budget, 600);
             if (spaceKind > 0 && man->getManifoldDimension() == 1) budget = std::min<long>(budget, 300);
             pl->setProblemDefinition(pdef);
             pl->setup();
@@ -729,7 +728,7 @@ int main(int argc, char **argv)
         return 2;
     }
     Sink sink(a);
-    long total = a.thorough() ? 20000 : 6000;
+    long total = a.thorough() ? 60000 : 6000;  // same per-case sizes in both tiers
     total = (long)(total * a.scale);
     for (long c = 0; c < total; ++c)
     {
